@@ -32,7 +32,7 @@ Sigs == {"none", "valid", "invalid", "wrapped", "wrapped_ownref", "wrapped_prefi
 \* version_*: another Version than the string "2.0" (an older one; another spelling of the number two);
 \* stale26h / future26h: IssueInstant 26 hours away -- outside the window by less than any time-zone offset
 Muts == {"none", "dest_foreign", "dest_absent", "dest_other_binding", "stale", "future", "stale26h", "future26h", "version_11", "version_2",
-         "wrong_root", "schema",
+         "wrong_root", "schema", "schema_child",      \* a required attribute / a required child element is missing
          "garbled_base64", "garbled_deflate", "truncated_xml", "not_xml"}
 \* issuerKey: metadata holds a signing key for the requester, or none
 Scn == [rtype : Types, binding : Bindings, sig : Sigs, want : BOOLEAN, mut : Muts, endpoint : {"configured", "otherBindingOnly"},
@@ -45,6 +45,7 @@ WellFormed(s) ==
     /\ (s.binding = "redirect" => s.sig = "none")                 \* redirect signatures live in the query (C15)
     /\ (s.rtype = "logout_sp" => ~s.want)                         \* the option is an IdP option
     /\ (s.mut = "garbled_deflate" => s.binding = "redirect")
+    /\ (s.mut = "schema_child" => s.rtype \in {"authn", "assertionid"})   \* the request types with a child of minimum occurrence 1
     /\ (s.mut = "garbled_base64" => s.binding # "soap")
     /\ (s.endpoint = "otherBindingOnly" => s.binding = "post")    \* receiver publishes a redirect endpoint only
     /\ (s.mut = "dest_other_binding" => s.endpoint = "configured" /\ s.rtype \notin Queries)
@@ -70,7 +71,7 @@ Signature ==
        ELSE IF scn.sig = "valid" THEN Goto("schema")
        ELSE IF scn.sig = "invalid" /\ scn.certOnly /\ ~Fixed THEN Goto("schema")      \* pinned: "if verified or only_valid_cert"
        ELSE Refuse                                          \* invalid; wrapped (repaired _check_signature)
-Schema == pc = "schema" /\ IF scn.mut = "schema" THEN Refuse ELSE Goto("verify")
+Schema == pc = "schema" /\ IF scn.mut \in {"schema", "schema_child"} THEN Refuse ELSE Goto("verify")
 \* Request._verify
 DestChecked == scn.endpoint = "configured" \/ Fixed
 Verify ==
@@ -81,7 +82,7 @@ Verify ==
        ELSE verdict' = "hand" /\ pc' = "done" /\ UNCHANGED scn
 
 \* ---- contract
-MustRefuse == \/ scn.mut \in {"dest_foreign", "stale", "future", "stale26h", "future26h", "version_11", "version_2", "wrong_root", "schema", "garbled_base64",
+MustRefuse == \/ scn.mut \in {"dest_foreign", "stale", "future", "stale26h", "future26h", "version_11", "version_2", "wrong_root", "schema", "schema_child", "garbled_base64",
                               "garbled_deflate", "truncated_xml", "not_xml"}
               \/ scn.sig \in {"invalid", "wrapped", "wrapped_ownref", "wrapped_prefix"}
               \/ (scn.sig # "none" /\ scn.issuerKey = "nokey")          \* a signature must verify under the issuer's metadata key
